@@ -133,6 +133,13 @@ def run(prop):
         if p.returncode != 0:
             raise variants.Skip("bin/format-twin failed: %s" % p.stdout.decode("utf-8", "replace")[:200])
     todo.append(("twin:FMT", None, "silent", {"apply": _fmt, "rules": []}))
+
+    def _rn(d):
+        # every local variable of every Python and C function renamed (bin/rename-twin): same object code, same behaviour
+        p = subprocess.run([os.path.join(core.VERIF, "bin", "rename-twin"), d, "_rn", "--params"], stdout=subprocess.PIPE, stderr=subprocess.STDOUT)
+        if p.returncode != 0:
+            raise variants.Skip("bin/rename-twin failed: %s" % p.stdout.decode("utf-8", "replace")[-200:])
+    todo.append(("twin:RN", None, "silent", {"apply": _rn, "rules": []}))
     with ThreadPoolExecutor(max_workers=int(os.environ.get("VP_JOBS", "16"))) as ex:
         results = list(ex.map(lambda t: _one(prop, *t), todo))
     for res in results:
